@@ -74,6 +74,28 @@ static void obs_restored(int id, const hll_sketch& s, int ref, const hll_sketch&
   Ev("Obs").raw("objs", "[" + proj(id, s) + "]").raw("ref", light(ref, rs)).b("restored", true).emit();
 }
 
+// state of the union's estimator as get_result(HLL_8) exposes it without side effects: mode, out-of-order flag, HIP accumulator
+// (image bytes 8..15), registers
+struct HipView { bool hll = false, ooo = false; double hip = 0; std::vector<uint8_t> regs; int lgk = 0; };
+static HipView hip_view(const hll_union& u) {
+  HipView h; h.lgk = u.get_lg_config_k();
+  if (h.lgk > 12) return h;
+  auto img = u.get_result(HLL_8).serialize_updatable();
+  if ((img[7] & 3) != 2) return h;
+  h.hll = true; h.ooo = (img[5] & 16) != 0; memcpy(&h.hip, &img[8], 8);
+  h.regs.assign(img.begin() + 40, img.begin() + 40 + ((size_t)1 << img[3]));
+  return h;
+}
+static std::string hinc_json(const HipView& a, const HipView& b) {
+  double kxq = 0; for (uint8_t v : a.regs) kxq += std::ldexp(1.0, -(int)v);
+  double expect = (double)a.regs.size() / kxq, got = b.hip - a.hip;
+  double rel = expect > 0 ? std::fabs(got - expect) / expect * 1e9 : 0;
+  Ev x("x"); x.s = "{\"z\":0";
+  x.b("ooo", a.ooo).b("oooAfter", b.ooo).d("hipBefore", a.hip).d("hipAfter", b.hip).i("ppb", rel > 1e9 ? 1000000000LL : (long long)std::llround(rel));
+  x.s += "}";
+  return x.s;
+}
+
 static void scalars(Ev& e, const hll_union& u) { e.i("lgk", u.get_lg_config_k()).b("empty", u.is_empty()); }
 
 int main(int argc, char** argv) {
@@ -96,6 +118,33 @@ int main(int argc, char** argv) {
   Mined mined; mined.build(200000);
   for (long seg = 0; seg < segments; seg++) {
     Ev("Begin").i("seg", seg).emit();
+    if (seg == 4) {
+      // Deterministic sweep over the bounds tables (every file): for every lg_k 4..13 two in-order HLL-mode sketches (observed: the
+      // in-order rows) are united in a union of that lg_k (lvalue / rvalue alternating); the result is out of order (observed in
+      // two types: the out-of-order rows): ordering of the bounds and their relative half-widths against sd * RSE(lg_k)
+      for (int lg = 4; lg <= 13; lg++) {
+        long k = 1L << lg, promo = lg < 8 ? 8 : 3 * k / 32 + 1;
+        std::unique_ptr<hll_sketch> sk[2];
+        for (int i = 0; i < 2; i++) {
+          sk[i].reset(new hll_sketch((uint8_t)lg, tt(T3[(lg + i + (int)seed) % 3]), (lg + i) % 2 == 0));
+          emit_new(i, *sk[i]);
+          std::vector<Item> items; long n = promo + g.range(20, std::max(40L, k));
+          for (long j = 0; j < n; j++) items.push_back(draw(g, 1L << 22));
+          feed(i, *sk[i], items);
+          obs1(i, *sk[i]);
+        }
+        hll_union u((uint8_t)lg);
+        { Ev e("UNew"); e.i("u", 0).i("lgmaxk", lg); scalars(e, u); e.emit(); }
+        for (int i = 0; i < 2; i++) {
+          bool rvalue = (lg + i) % 2 == 1;
+          if (rvalue) { hll_sketch tmp(*sk[i]); u.update(std::move(tmp)); } else u.update(*sk[i]);
+          Ev e("UUpdate"); e.i("u", 0).i("src", i).b("rvalue", rvalue); scalars(e, u); e.emit();
+        }
+        for (int t : {T3[(lg + (int)seed) % 3], 8}) { hll_sketch r = u.get_result(tt(t)); Ev e("UResult"); e.i("u", 0).i("type", t).raw("r", proj(9, r)); scalars(e, u); e.emit(); }
+        { Ev e("UEst"); e.i("u", 0); est_fields(e, u); scalars(e, u); e.emit(); }
+      }
+      continue;
+    }
     bool high = seg == 0 && hilo > 16 && hihi >= hilo;
     bool prom_here = g.chance(60), smaller_here = g.chance(50);   // both pull the result down to their lg_k: not in every file
     int serde_pct = high ? 0 : serde_arg;                      // no serde of megabyte images
@@ -236,6 +285,8 @@ int main(int argc, char** argv) {
     // raw items offered directly to the unions (the same set for every presentation)
     std::vector<Item> raw;
     { long nr = g.chance(30) ? 0 : (g.chance(70) ? g.range(1, 12) : g.range(12, 300)); for (long j = 0; j < nr; j++) raw.push_back(g.chance(10) ? pool.pick(g, 12) : draw(g, universe)); }
+    // every update overload with its edge values, in segment 1 of a file and 30 % of the others
+    if (!high && (seg == 1 || g.chance(30))) { auto ed = edge_items(); for (auto& it : ed) if (seg == 1 || g.chance(50)) raw.push_back(it); }
     if (adopt) { raw.clear(); long nr = g.range(30, 60); for (long j = 0; j < nr; j++) raw.push_back(g.chance(10) ? pool.pick(g, 12) : draw(g, 1L << 22)); }
     if (plan == 2) { raw.push_back(mined.item(mp.first, g)); raw.push_back(mined.item(mp.second, g)); }
     if (plan == 3) raw.push_back(mined.item(mp.second, g));
@@ -249,7 +300,11 @@ int main(int argc, char** argv) {
         restored_of[i] = nrs++;
       }
     }
-    bool with_reset = !adopt && !rst_seg && g.chance(12);
+    // directed shape (25 % of the plain segments): the first operand is an HLL-mode sketch with lg_k > lg_max_k (the gadget is a
+    // down-sampled copy that keeps the source's HIP accumulator), then all raw items, then the coupon-mode operands, then the rest
+    int ds_first = -1;
+    if (!high && !adopt && !rst_seg) for (int i = 0; i < nin; i++) if (in[i]->get_lg_config_k() > lgmax && view(*in[i], false).mode == 2 && !in[i]->is_empty()) { if (g.chance(25)) ds_first = i; break; }
+    bool with_reset = !adopt && !rst_seg && ds_first < 0 && g.chance(12);
     if (rst_seg && raw.empty()) raw.push_back(draw(g, universe));
     std::unique_ptr<hll_sketch> ures[3], urst[3];      // directed segment: union results 10..12 and their restored copies 19..21
     std::unique_ptr<hll_union> un[3];
@@ -283,6 +338,12 @@ int main(int argc, char** argv) {
       std::vector<int> order;                   // >= 0: input index, < 0: raw item -(j+1)
       for (int i = 0; i < nin; i++) order.push_back(i);
       for (size_t j = 0; j < raw.size(); j++) order.push_back(-(int)j - 1);
+      if (ds_first >= 0 && p == 0) {
+        order.clear(); order.push_back(ds_first);
+        for (size_t j = 0; j < raw.size(); j++) order.push_back(-(int)j - 1);
+        for (int i = 0; i < nin; i++) if (i != ds_first && view(*in[i], false).mode != 2) order.push_back(i);
+        for (int i = 0; i < nin; i++) if (i != ds_first && view(*in[i], false).mode == 2) order.push_back(i);
+      } else
       if (adopt && p < 2) {
         // input 0 first; presentation 0: then all raw items, then the HLL-mode inputs; presentation 1: the rest shuffled
         order.clear(); order.push_back(0);
@@ -324,9 +385,11 @@ int main(int argc, char** argv) {
         } else {
           const Item& it = raw[-o - 1];
           Coupon c{0, 0}; bool counted = ref_coupon(it, c);
+          HipView hb = hip_view(u);
           do_update(u, it);
           Ev e(counted ? "UItem" : "UItemIgnored"); e.i("u", p).str("ty", TYPES[it.type]);
           if (counted) e.raw("c", "[" + std::to_string(c.addr) + "," + std::to_string(c.val) + "]");
+          if (counted && hb.hll) { HipView ha = hip_view(u); if (ha.hll && ha.lgk == hb.lgk) e.raw("hinc", hinc_json(hb, ha)); }
           scalars(e, u); e.emit();
         }
       }
